@@ -54,7 +54,7 @@ def table_rows():
 
 
 def table_quirks():
-    """(perDb, rewatchKeeps) as the translator reads them from the source (= Gen.watchQ), or a string"""
+    """(perDb, rewatchKeeps, watchPurges) as the translator reads them from the source (= Gen.watchQ), or a string"""
     import extract
     import watch_facts
     return watch_facts.quirks(extract.src, extract.strip_comments, extract.fn_body)
@@ -157,7 +157,7 @@ def classify(args):
 
 # ------------------------------------------------------------------ session: server + model
 class Sess:
-    def __init__(self, rows, tag="c08", quirks=(0, 0), base_db=0):
+    def __init__(self, rows, tag="c08", quirks=(0, 0, 0), base_db=0):
         self.base_db = base_db
         self.srv = Server(tag)
         self.cl = {i: self.srv.client() for i in (A, B, C)}
@@ -177,7 +177,7 @@ class Sess:
         self.disagree = []       # model disagreements (code model vs implementation)
         self.execs = []          # every EXEC verdict of the current cell
         self.evals = 0
-        self.ask("reset %d %d" % quirks)
+        self.ask("reset %d %d %d" % tuple(quirks))
         for r in rows:
             self.ask("fn %s %d %s %s %d" % (r["name"], r["mutates"], ",".join(r["keyParams"]) or ".",
                                            ",".join(r["marked"]) or ".", r["marksAll"]))
@@ -1045,8 +1045,8 @@ def main(tier, seed):
         rep.violation("translator no longer recognises how the watch list is kept (%s): Gen.watchQ not extracted" % quirks,
                       {"theorem_errors": errs[:10], "log_tail": log[-2000:]}, no_input=True)
         return rep.finish()
-    quirks = (int(quirks[0]), int(quirks[1]))
-    rep.extra["watch_list_quirks"] = {"perDb": bool(quirks[0]), "rewatchKeeps": bool(quirks[1])}
+    quirks = tuple(int(x) for x in quirks)
+    rep.extra["watch_list_quirks"] = {"perDb": bool(quirks[0]), "rewatchKeeps": bool(quirks[1]), "watchPurges": bool(quirks[2])}
     r = Rng(seed)
     oracle, disagree = [], []
     rounds = [0] if tier == "quick" else [0, 3, 15, 9]
@@ -1104,7 +1104,7 @@ def replay(path):
     quirks = table_quirks()
     if isinstance(quirks, str):
         raise InternalError("translator: " + quirks)
-    s = Sess(rows, "c08replay", (int(quirks[0]), int(quirks[1])))
+    s = Sess(rows, "c08replay", tuple(int(x) for x in quirks))
     try:
         s.cell = rp.get("cell")
         run_steps(s, rp["steps"])
